@@ -159,11 +159,27 @@ theorem presOk_three (re : Reenter) : PresOk Bal (callNativeBody re "three") := 
 theorem presOk_four (re : Reenter) : PresOk Bal (callNativeBody re "four") := by simple_native
 theorem presOk_mktable (re : Reenter) : PresOk Bal (callNativeBody re "mktable") := by simple_native
 
-/-- which function value a native calls back, and how many arguments it pushes for it -/
+/-- which function value a native calls back, and how many arguments it pushes for it
+    (`papply` pops its callee and pushes nothing) -/
 def cbSpec (name : String) (s : VmState) : Option (Val × Nat) :=
   if name = "__min" ∨ name = "__max" ∨ name = "__sort" then some (s.stack.peekLast 0, 2)
   else if name = "callback" then some (s.stack.peekLast 1, 1)
+  else if name = "papply" then some (s.stack.peekLast 0, 0)
   else none
+
+/-- how many values the *body* of a host function pops by itself (plain host functions such as
+    `papply` take their arguments off the stack; the typed wrappers leave them to `callNative`) -/
+def bodyPops (name : String) : Nat := if name = "papply" then 1 else 0
+
+/-- the live stack is the entry stack minus its `n` top slots (same capacity, lower slots
+    untouched), the call stack is as before -/
+structure PoppedBy (n : Nat) (s s' : VmState) : Prop where
+  pre : Prefix s'.stack s.stack
+  count : s'.stack.count = s.stack.count - n
+  frames : s'.frames = s.frames
+
+theorem PoppedBy.of_bal {s s' : VmState} (h : Bal s s') : PoppedBy 0 s s' :=
+  ⟨Prefix.of_stackSame h.1, h.1.count, h.2⟩
 
 /-- the callback is balanced for the callee the native `name` will pass it in state `s` -/
 def CbBalanced (re : Reenter) (name : String) (s : VmState) : Prop :=
@@ -171,10 +187,10 @@ def CbBalanced (re : Reenter) (name : String) (s : VmState) : Prop :=
 
 /-- natives that never call back need no hypothesis -/
 theorem cbBalanced_trivial (re : Reenter) (name : String) (s : VmState)
-    (h : name ≠ "__min" ∧ name ≠ "__max" ∧ name ≠ "__sort" ∧ name ≠ "callback") :
+    (h : name ≠ "__min" ∧ name ≠ "__max" ∧ name ≠ "__sort" ∧ name ≠ "callback" ∧ name ≠ "papply") :
     CbBalanced re name s := by
   intro f n hs
-  simp [cbSpec, h.1, h.2.1, h.2.2.1, h.2.2.2] at hs
+  simp [cbSpec, h.1, h.2.1, h.2.2.1, h.2.2.2.1, h.2.2.2.2] at hs
 
 /-- the hypothesis is satisfiable for the natives that do call back: the ideal callback of C09 -/
 example (φ : Val → Val → Val) (s : VmState) : CbBalanced (idealCallback φ) "__sort" s := by
@@ -183,9 +199,10 @@ example (φ : Val → Val → Val) (s : VmState) : CbBalanced (idealCallback φ)
   rw [← hs.2]
   exact (pureCallback_ideal φ f).balanced
 
-/-- **every registered host function, when it returns, leaves the live value stack and the call
-    stack exactly as it found them** (the arguments are still there: `callNative` pops them) -/
-theorem callNativeBody_bal (re : Reenter) (name : String) {s s' : VmState} {r : Val}
+/-- every registered host function other than `papply`, when it returns, leaves the live value
+    stack and the call stack exactly as it found them -/
+theorem callNativeBody_bal0 (re : Reenter) (name : String) {s s' : VmState} {r : Val}
+    (hp : name ≠ "papply")
     (hcb : CbBalanced re name s) (hok : (callNativeBody re name).go s = (.ok r, s')) :
     Bal s s' := by
   by_cases h1 : name = "__min"
@@ -221,6 +238,50 @@ theorem callNativeBody_bal (re : Reenter) (name : String) {s s' : VmState} {r : 
     unfold callNativeBody at hok
     rw [go_bind_ok (go_get s)] at hok
     split at hok <;> first | contradiction | (simp at hok)
+
+/-- the plain host function `papply(f)`: pops `f` itself and calls it with no arguments -/
+def papplyBody (re : Reenter) : M Val := do
+  let _h := (← get).heap
+  let f ← pop
+  let r ← re f
+  let h := (← get).heap
+  modify fun s => { s with hostLog := s.hostLog ++ ["papply -> " ++ (ownD h r).toTok] }
+  return r
+
+theorem callNativeBody_papply (re : Reenter) : callNativeBody re "papply" = papplyBody re := by
+  unfold callNativeBody
+  simp (config := { decide := true }) only []
+  rfl
+
+theorem papplyBody_popped {re : Reenter} {s s' : VmState} {r : Val}
+    (hb : Balanced re (s.stack.peekLast 0) 0)
+    (hok : (papplyBody re).go s = (.ok r, s')) : PoppedBy 1 s s' := by
+  obtain ⟨hpre, hcnt, hval⟩ := pop_facts s.stack
+  unfold papplyBody at hok
+  rw [go_bind_ok (go_get s), go_bind_ok (go_pop s), hval] at hok
+  obtain ⟨r0, t, hre, hrest⟩ := ok_bind hok
+  obtain ⟨h1, h2, h3⟩ := hb _ r0 t (Nat.zero_le _) (fun h => absurd h (Nat.lt_irrefl 0)) hre
+  dsimp only at h1 h2 h3
+  have hbal : Bal t s' := by
+    refine PresOk.ok ?_ t r s' hrest
+    repeat presok_step2
+  exact ⟨(Prefix.of_stackSame hbal.1).trans (h1.trans hpre),
+    by rw [hbal.1.count, ← hcnt]; omega, hbal.2.trans h3⟩
+
+/-- **every registered host function, when it returns, leaves the call stack as it found it and
+    the live value stack equal to the entry stack minus the `bodyPops name` top slots it consumed
+    itself** (0 for the typed wrappers — their arguments are still there, `callNative` pops them —
+    and 1 for the plain `papply`) -/
+theorem callNativeBody_bal (re : Reenter) (name : String) {s s' : VmState} {r : Val}
+    (hcb : CbBalanced re name s) (hok : (callNativeBody re name).go s = (.ok r, s')) :
+    PoppedBy (bodyPops name) s s' := by
+  by_cases hp : name = "papply"
+  · subst hp
+    rw [callNativeBody_papply] at hok
+    exact papplyBody_popped (hcb _ _ (by simp [cbSpec])) hok
+  · have h0 : bodyPops name = 0 := by simp [bodyPops, hp]
+    rw [h0]
+    exact PoppedBy.of_bal (callNativeBody_bal0 re name hp hcb hok)
 
 
 /-! ### argument conversion -/
@@ -287,10 +348,11 @@ theorem handler_throws (name : String) (n : Nat) (e : ErrKind) (s₁ : VmState) 
   ⟨_, _, by rw [go_bind_ok (go_popN n s₁)]; rfl⟩
 
 /-- **(e) the stack effect of a host function call.** When `callNative` returns: the call stack
-    is unchanged; the `arity` arguments have been replaced by the single result — the height is
-    `count - arity + 1` (natives called with fewer than `arity` values on the stack pop what is
-    there), the capacity is unchanged, every slot below the arguments is untouched and the
-    result `r` of the host function is on top. Hypothesis: the callback is balanced for the
+    is unchanged; the `bodyPops` values the body consumed itself and the `arity` arguments the
+    wrapper pops have been replaced by the single result — the height is
+    `count - (arity + bodyPops) + 1` (`callNative_count`; natives called with fewer values on the
+    stack pop what is there), the capacity is unchanged, every slot below the arguments is
+    untouched and the result `r` of the host function is on top. Hypothesis: the callback is balanced for the
     callee this native passes to it (`CbBalanced`; vacuous for natives that do not call back). -/
 theorem callNative_stack_effect (re : Reenter) (h : UInt32) {s s' : VmState} {u : PUnit}
     (hcb : ∀ name, nativeNames.find? (fun n => hName n == h) = some name → CbBalanced re name s)
@@ -298,9 +360,11 @@ theorem callNative_stack_effect (re : Reenter) (h : UInt32) {s s' : VmState} {u 
     ∃ name r, nativeNames.find? (fun n => hName n == h) = some name ∧
       (∃ s₁, (callNativeBody re name).go s = (.ok r, s₁)) ∧
       s'.frames = s.frames ∧
-      s'.stack.count = s.stack.count - min s.stack.count (nativeArity name) + 1 ∧
+      s'.stack.count = (s.stack.count - bodyPops name) -
+        min (s.stack.count - bodyPops name) (nativeArity name) + 1 ∧
       s'.stack.data.length = s.stack.data.length ∧
-      (∀ i, i < s.stack.count - nativeArity name → s'.stack.data[i]? = s.stack.data[i]?) ∧
+      (∀ i, i < s.stack.count - bodyPops name - nativeArity name →
+        s'.stack.data[i]? = s.stack.data[i]?) ∧
       s'.stack.peekLast 0 = r := by
   unfold callNative at hok
   cases hfind : nativeNames.find? (fun n => hName n == h) with
@@ -318,28 +382,29 @@ theorem callNative_stack_effect (re : Reenter) (h : UInt32) {s s' : VmState} {u 
     have hbody' := ok_tryCatch_throw (fun e s₁ => handler_throws name _ e s₁) hbody
     rw [go_bind_ok (go_popN _ s1)] at hok2
     obtain ⟨hroom, hs'⟩ := push_ok hok2
-    obtain ⟨hst, hfr⟩ := callNativeBody_bal re name (hcb name hfind) hbody'
+    obtain ⟨hpre, hcount, hfr⟩ := callNativeBody_bal re name (hcb name hfind) hbody'
     subst hs'
     dsimp only [VStack.popN] at hroom ⊢
     refine ⟨name, r, rfl, ⟨s1, hbody'⟩, hfr, ?_, ?_, ?_, ?_⟩
-    · rw [hst.count]
-    · rw [List.length_set, hst.cap]
+    · rw [hcount]
+    · rw [List.length_set, hpre.cap]
     · intro i hi
       rw [List.getElem?_set]
       have : ¬ s1.stack.count - min s1.stack.count (nativeArity name) = i := by
-        rw [hst.count]; omega
+        rw [hcount]; omega
       simp only [this, if_false]
-      exact hst.slots i (by omega)
+      exact hpre.slots i (by rw [hcount]; omega)
     · exact peekLast_push0 _ _ _ (by omega)
 
-/-- the usual case: the script supplied all `arity` arguments -/
+/-- the usual case: the script supplied all `arity + bodyPops` arguments -/
 theorem callNative_count (re : Reenter) (h : UInt32) {s s' : VmState} {u : PUnit}
     (hcb : ∀ name, nativeNames.find? (fun n => hName n == h) = some name → CbBalanced re name s)
     (hok : (callNative re h).go s = (.ok u, s')) :
     ∃ name, nativeNames.find? (fun n => hName n == h) = some name ∧
-      (nativeArity name ≤ s.stack.count → s'.stack.count = s.stack.count - nativeArity name + 1) := by
+      (nativeArity name + bodyPops name ≤ s.stack.count →
+        s'.stack.count = s.stack.count - (nativeArity name + bodyPops name) + 1) := by
   obtain ⟨name, r, hf, -, -, hc, -⟩ := callNative_stack_effect re h hcb hok
-  exact ⟨name, hf, fun hle => by rw [hc, Nat.min_eq_right hle]⟩
+  exact ⟨name, hf, fun hle => by rw [hc, Nat.min_eq_right (by omega)]; omega⟩
 
 /-- **errors of host functions are wrapped**: a failing `callNative` raises
     * `ProcedureNotFound` (no function registered under the handle; machine untouched), or
@@ -406,7 +471,8 @@ theorem callNative_error_wrapped (re : Reenter) (h : UInt32) {s s' : VmState} {e
     fits: every error of a registered host function is then a `TaskFailure` carrying its name -/
 theorem callNative_error_is_taskFailure (re : Reenter) (h : UInt32) {s s' : VmState} {e : ErrKind}
     {name : String} (hfind : nativeNames.find? (fun n => hName n == h) = some name)
-    (hcb : CbBalanced re name s) (har : 1 ≤ min s.stack.count (nativeArity name))
+    (hcb : CbBalanced re name s)
+    (har : 1 ≤ min (s.stack.count - bodyPops name) (nativeArity name))
     (hroom : s.stack.count < s.stack.data.length)
     (herr : (callNative re h).go s = (.error e, s')) : ∃ e', e = .taskFailure name e' := by
   rcases callNative_error_wrapped re h herr with ⟨hn, -, -⟩ | ⟨name', hf', hcases⟩
@@ -419,14 +485,14 @@ theorem callNative_error_is_taskFailure (re : Reenter) (h : UInt32) {s s' : VmSt
     · exact ⟨e', he⟩
     · exfalso
       -- the push of the result cannot fail
-      obtain ⟨hst, -⟩ := callNativeBody_bal re name hcb hbody
+      obtain ⟨hpre, hcount, -⟩ := callNativeBody_bal re name hcb hbody
       have hpush : ∃ u s₂, (push r).go { s₁ with stack := (s₁.stack.popN (nativeArity name)).1 } =
           (.ok u, s₂) := by
         rw [go_push]
         have hlt : ({ s₁ with stack := (s₁.stack.popN (nativeArity name)).1 } : VmState).stack.count + 1 <
             ({ s₁ with stack := (s₁.stack.popN (nativeArity name)).1 } : VmState).stack.data.length := by
           dsimp only [VStack.popN]
-          rw [hst.count, hst.cap]; omega
+          rw [hcount, hpre.cap]; omega
         split
         · exact ⟨_, _, rfl⟩
         · contradiction
@@ -481,11 +547,17 @@ example : (match (callNative noCb (hName "fail")).go (argVm [.int 1]) with
 example : (match (callNative noCb (hName "strlen")).go (argVm [.int 5]) with
   | (.error (.taskFailure "strlen" .invalidArgument), s') => s'.stack.count == 1
   | _ => false) = true := by decide +kernel
+/-- the plain host function `papply(f)` below an unrelated value: the body pops `f`, the wrapper
+    pops nothing (`arity = 0`), the callee's result replaces `f` -/
+example : (match (callNative (fun _ => pure (.int 9)) (hName "papply")).go (argVm [.int 1, .int 5]) with
+  | (.ok _, s') => s'.stack.count == 2 && s'.stack.peekLast 0 == .int 9 && s'.stack.peekLast 1 == .int 1
+  | _ => false) = true := by decide +kernel
+example : nativeNames.length = 13 ∧ nativeArity "papply" = 0 ∧ bodyPops "papply" = 1 := by decide
 /-- an unknown handle -/
 example : (match (callNative noCb (hName "nope")).go (argVm [.int 5]) with
   | (.error .procedureNotFound, s') => s'.stack.count == 1
   | _ => false) = true := by decide +kernel
-/-- every registered name is found under its own handle (no collisions among the twelve) -/
+/-- every registered name is found under its own handle (no collisions among the thirteen) -/
 example : ∀ n ∈ nativeNames, nativeNames.find? (fun m => hName m == hName n) = some n := by
   decide +kernel
 
@@ -533,7 +605,7 @@ theorem register_reserved (name : String) :
 /-- in particular the four library natives cannot be overridden, the test family can be registered -/
 example : ∀ n ∈ ["__min", "__max", "__sort", "__to_array"],
     Driver.natStep ["register", n] = "err:InvalidArgument" := by decide +kernel
-example : ∀ n ∈ ["log", "sum2", "fail", "callback", "strlen", "three", "four", "mktable"],
+example : ∀ n ∈ ["log", "sum2", "fail", "callback", "strlen", "three", "four", "mktable", "papply"],
     Driver.natStep ["register", n] = "ok" := by decide +kernel
 
 /-! ### (f) `run_function` -/
@@ -549,9 +621,11 @@ theorem exec_call_native (p : Prog) (gas : Nat) {a : Nat} {h : UInt32} {s s' : V
     ∃ name r, nativeNames.find? (fun n => hName n == h) = some name ∧ v = some r ∧
       (∃ s₁, (callNativeBody (reenterOf p gas) name).go s = (.ok r, s₁)) ∧
       s'.frames = s.frames ∧
-      s'.stack.count = s.stack.count - min s.stack.count (nativeArity name) ∧
+      s'.stack.count = (s.stack.count - bodyPops name) -
+        min (s.stack.count - bodyPops name) (nativeArity name) ∧
       s'.stack.data.length = s.stack.data.length ∧
-      (∀ i, i < s.stack.count - nativeArity name → s'.stack.data[i]? = s.stack.data[i]?) := by
+      (∀ i, i < s.stack.count - bodyPops name - nativeArity name →
+        s'.stack.data[i]? = s.stack.data[i]?) := by
   rw [exec_call] at hok
   simp only [hget] at hok
   rcases hc : (callNative (reenterOf p gas) h).go s with ⟨rc, s1⟩
